@@ -38,14 +38,16 @@ type c17Stream struct{}
 
 func (c17Stream) Name() string               { return "c17" }
 func (c17Stream) CaseTimeout() time.Duration { return 30 * time.Second }
-func (c17Stream) NoModel() bool               { return true }
+func (c17Stream) NoModel() bool              { return true }
 func (c17Stream) Rule() string {
-	return "a poller spins on Ready() concurrently with Run over valid address forms (IPv4, localhost, bare :port, bracketed and bare IPv6 when available) with and without a TLS listener: at the first true a TCP connect and a bind request must succeed and be answered; ports that are already bound and malformed addresses (no port, empty port, unbalanced brackets, bad literals): Run must return an error and Ready must stay false; non-trivial = every case, distinct by address form"
+	return "a poller spins on Ready() concurrently with Run over valid address forms (IPv4, localhost, bare :port, bracketed and bare IPv6 when available) with and without a TLS listener: at the first true a TCP connect and a bind request must succeed and be answered; ports that are already bound and malformed addresses (no port, empty port, unbalanced brackets, bad literals, ports outside 0..65535 in every address form): Run must return an error and Ready must stay false; non-trivial = every case, distinct by address form"
 }
 
 func (c17Stream) Generate(rng *rand.Rand, n int, thorough bool) []Case {
 	forms := []string{"127.0.0.1:%d", "localhost:%d", ":%d", "[::1]:%d", "::1:%d"}
-	bad := []string{"127.0.0.1", "127.0.0.1:", "[::1]", "[::1:389", "999.1.1.1:389", "1.2.3:389", ":", "", "[zz::1]:389", "zz::1:389"}
+	bad := []string{"127.0.0.1", "127.0.0.1:", "[::1]", "[::1:389", "999.1.1.1:389", "1.2.3:389", ":", "", "[zz::1]:389", "zz::1:389",
+		// ports out of range; %d becomes a currently free port + 65536, so a port silently truncated to 16 bits would bind
+		"127.0.0.1:%d", "[::1]:%d", ":%d", "localhost:%d", "::1:%d", "127.0.0.1:-1", "127.0.0.1:65536", "[::1]:0x50"}
 	var cs []Case
 	for len(cs) < n {
 		switch rng.Intn(4) {
@@ -96,6 +98,9 @@ func (c17Stream) Impl(c Case) string {
 			defer hold.Close()
 		} else {
 			addr = string(unhx(p["addr"]))
+			if strings.Contains(addr, "%d") {
+				addr = fmt.Sprintf(addr, port+65536)
+			}
 		}
 		var sawReady int32
 		stopPoll := make(chan struct{})
@@ -482,12 +487,12 @@ type c11Stream struct{}
 
 func (c11Stream) Name() string               { return "c11" }
 func (c11Stream) CaseTimeout() time.Duration { return 60 * time.Second }
-func (c11Stream) NoModel() bool               { return true }
+func (c11Stream) NoModel() bool              { return true }
 func (c11Stream) Rule() string {
-	return "K connections (0..6) put into one state at the moment Stop is called - none, idle after a bind, half a frame sent, TCP connected to a TLS listener without ClientHello, pipelining requests as fast as possible, or sending searches whose large results they never read - optionally with a concurrent second Stop; the clients do NOTHING to help after Stop is called; oracle: Stop returns within 3 s and Run returns nil within 3 s more; non-trivial = at least one connection, distinct by scenario"
+	return "K connections (0..6) put into one state at the moment Stop is called - none, idle after a bind, half a frame sent, TCP connected to a TLS listener without ClientHello, StartTLS accepted but no ClientHello ever sent (Stop arriving before or after the handler calls Request.StartTLS), pipelining requests as fast as possible, or sending searches whose large results they never read - optionally with a concurrent second Stop; the clients do NOTHING to help after Stop is called; oracle: Stop returns within 3 s and Run returns nil within 3 s more; non-trivial = at least one connection, distinct by scenario"
 }
 
-var c11States = []string{"none", "idle", "partial", "tlspending", "busy", "notreading"}
+var c11States = []string{"none", "idle", "partial", "tlspending", "busy", "notreading", "starttls-early", "starttls-late"}
 
 func (c11Stream) Generate(rng *rand.Rand, n int, thorough bool) []Case {
 	var cs []Case
@@ -521,7 +526,12 @@ func (c11Stream) Impl(c Case) string {
 	if state == "tlspending" {
 		tlsc = srvTLS
 	}
-	sut, err := startServer(allRoutes(h, nil, nil), tlsc, nil)
+	var stlsH gldap.HandlerFunc
+	if strings.HasPrefix(state, "starttls") {
+		// the StartTLS handler answers, dawdles 150 ms, then starts a handshake the client never takes part in
+		stlsH = startTLSHandler(srvTLS, 0, 150*time.Millisecond)
+	}
+	sut, err := startServer(allRoutes(h, stlsH, nil), tlsc, nil)
 	if err != nil {
 		return "harness-error start: " + err.Error()
 	}
@@ -542,6 +552,10 @@ func (c11Stream) Impl(c Case) string {
 			f := opFrame("search", 1)
 			_, _ = c.Write(f[:len(f)-3])
 		case "tlspending":
+		case "starttls-early", "starttls-late":
+			rcl := &rawClient{c: c}
+			_ = rcl.send(opFrame("starttls", 1))
+			_, _ = rcl.readFrame(3 * time.Second)
 		case "busy":
 			go func(c net.Conn) {
 				go func() { // drain responses
@@ -573,6 +587,9 @@ func (c11Stream) Impl(c Case) string {
 		}
 	}
 	time.Sleep(50 * time.Millisecond)
+	if state == "starttls-late" {
+		time.Sleep(250 * time.Millisecond) // Stop arrives when the handshake is already waiting for a ClientHello
+	}
 	verdict := "ok"
 	if p["second"] == "1" {
 		go sut.stop(10 * time.Second)
